@@ -776,7 +776,15 @@ def rule_arena(R):
     c17.rule_used(R)
 
 
+def rule_nonzero_id(R):
+    """a PUBLISH (QoS>0), SUBSCRIBE or UNSUBSCRIBE with packet identifier 0 is malformed: the allocator never yields 0
+    (shared with C07)"""
+    from .c07 import clause_nonzero
+    clause_nonzero(R, "id-nz")
+
+
 def run(R):
+    R.rule("id-nz", rule_nonzero_id)
     R.rule("varint", rule_varint)
     R.rule("arena", rule_arena)
     R.rule("arena-order", rule_arena_order)
